@@ -11,7 +11,7 @@ from cxxheaderparser.errors import CxxParseError
 TECHNIQUE = 'Lean 4: formatter equations for every type tree on the format model, tied by correspondence to types.py; parse(format t) = t decided by a round-trip oracle on the implementation (not a theorem)'
 LEAN_TARGET = "CxxModel.Props.C17"
 THEOREMS = ["Cxx.C17_decl_type", "Cxx.C17_decl_array", "Cxx.C17_decl_ptr_plain", "Cxx.C17_decl_ptr_array", "Cxx.C17_decl_ref_array",
-            "Cxx.C17_fmt_plain_ptr", "Cxx.C17_fmt_mref", "Cxx.C17_ptr_cv_both"]
+            "Cxx.C17_fmt_plain_ptr", "Cxx.C17_fmt_mref", "Cxx.C17_ptr_cv_both", "Cxx.C17_chain_round_trip"]
 ANCHORS = ["types.py:", "tokfmt.py:", "parser.py:CxxParser._parse_cv_ptr_or_fn", "parser.py:CxxParser._parse_type", "parser.py:CxxParser._parse_array_type",
            "parser.py:CxxParser._parse_pqname", "parser.py:CxxParser._parse_pqname_decltype_specifier", "parser.py:CxxParser._parse_parameter", "parser.py:CxxParser._parse_template_specialization"]
 RULE = ("the C02 generator's range of type trees (exhaustive to depth 3, random to depth 6, const/volatile pointers at every "
@@ -19,6 +19,7 @@ RULE = ("the C02 generator's range of type trees (exhaustive to depth 3, random 
         "format_decl(name) and re-parsed in variable and parameter position, and with format() in alias and unnamed-parameter "
         "position; qualified names, template specialisations and parameters formatted and re-parsed; non-trivial = depth >= 1")
 CARRIED_BY = {
+    "format -> parse at the token level for pointer chains of any depth over a named type: format_decl(x) writes the name, exactly the operators chainOps d and x; decoding those operators the way _parse_cv_ptr_or_fn provably does gives d back (with C01_toplevel_variable: the token sequence parses to one variable of type d named x); outside the theorem: that the formatted TEXT lexes to those tokens": "theorem C17_chain_round_trip (Theorems/ChainRoundTrip.lean)",
     "what format()/format_decl() write (every type tree)": "theorems C17_* (formatter equations) + correspondence `format` (model vs types.py)",
     "parse(format(t)) = t (full statement)": "NOT a theorem (needs the C02 round trip); oracle `format_roundtrip` on the implementation, outside the listed finding",
 }
